@@ -69,6 +69,7 @@ pub fn decode_case(data: &[u8]) -> Case {
         tick: if periodic { Some((pick(u, &[100_000_000i64, 250_000_000, 500_000_000, NS, 1_500_000_000, 2 * NS, 3 * NS]), (b(u) as i64) * 7_000_000)) } else { None },
         order: capsel % 10,
         defaults: false,
+        patience_ms: 0,
     };
     let room = (max_cost - internal).clamp(1, 1 << 20);
     let cost = |u: &mut Unstructured| -> i64 {
